@@ -8,6 +8,10 @@ EventQueue::ProcessEvent, EventsFilter::Push, ConsoleHandler::ExecuteScriptHelpe
 import random, os, subprocess, tempfile, shutil, binascii, collections
 from . import core
 
+# the failing-input search of the runner (after a broken proof / correspondence without an oracle hit): bounded, and its
+# populations (tier 'search') are of quick-tier size, ordered by what the MODEL predicts to fail (see generate())
+os.environ.setdefault('VERIF_SEARCH_S', '60')
+
 PID = 'C19'
 HEADER = []
 LIBS = 'base,config,remote,icinga,methods,checker,notification'
@@ -325,6 +329,104 @@ def hidden_native_probes(fn, rnd, tier, fns):
     return out
 
 
+
+# ---------------------------------------------------------------- writers x syntactic positions x left-hand sides
+# Every WRITER construct, placed in every syntactic position an expression can occupy, with every kind of left-hand side.
+# Assignments and the other statements are `lterm`s: they can only stand in a statement list - top level, `{ }` used as a
+# value (dictionary literal: the members run when the literal is evaluated, with `this` = the new dictionary, after
+# BindToScope(.., ScopeThis)), and the scopes of if / else / try / except / while / for / function / namespace.  A dictionary
+# literal (and `if`) is an rterm, so it carries a writer into every expression position.
+
+SET_OPS = [('set', '='), ('add', '+='), ('sub', '-='), ('mul', '*='), ('div', '/='), ('mod', '%='), ('xor', '^='), ('and', '&='), ('or', '|=')]
+
+# left-hand sides: (shape, text, right-hand side).  @H = `host` in filter mode (bound by FilterUtility), else get_object(..)
+W_LHS = [
+    ('globals_new', 'globals.SbW@', '5'), ('globals_num', 'globals.SbNum', '5'),
+    ('ident_new', 'sbx@', '5'), ('ident_global', 'SbNum', '5'), ('strkey', '"sbk"', '5'),
+    ('this', 'this.sbx', '5'), ('locals', 'locals.sbx', '5'),
+    ('call_attr', 'get_object(Host, "sbh").display_name', '"sbw"'), ('call_vars', 'get_object(Host, "sbh").vars.num', '5'),
+    ('call_idx_vars', 'get_objects(Host)[0].vars.num', '5'), ('call_idx_new', 'get_objects(Host)[0].vars.added@', 'true'),
+    ('live_attr', 'host.vars.num', '5'), ('live_dict', 'SbDict.a', '5'), ('live_arr', 'SbArr[0]', '5'), ('live_ns', 'SbNs.x', '5'),
+    ('deref', '*(&globals.SbNum)', '5'), ('deref_call', '*(&get_object(Host, "sbh").vars.num)', '5'),
+    ('nested_lhs', 'globals.SbNest.d.z', '5'), ('array_root', '[ SbNest.d ][0].z', '5'),
+]
+# operators that make sense for a left-hand side (a string attribute only takes `=` and `+=`, a new key of a live dictionary `=`)
+W_LHS_OPS = {'call_attr': ('set', 'add'), 'call_idx_new': ('set',)}
+# the other writers: (name, text)
+W_OTHER = [
+    ('const', 'const SbWC@ = 1'), ('var', 'var sbv = 1'), ('namespace', 'namespace SbWN@ { }'),
+    ('function', 'function sbwf@() { }'), ('function_use', 'function sbwf@() use(q = 1) { }'),
+    ('for', 'for (q in [ 1 ]) { }'), ('for_kv', 'for (k => v in SbDict) { }'), ('while', 'while (false) { }'),
+    ('apply', 'apply Service "sbwa@" to Host { check_command = "sbcmd"; assign where true }'),
+    ('object', 'object Host "sbwo@" { check_command = "sbcmd" }'), ('template', 'template Host "sbwt@" { }'),
+    ('include', 'include "/nonexistent/sbw@.conf"'), ('include_recursive', 'include_recursive "/nonexistent/sbw@"'),
+    ('import', 'import "sbtmpl"'), ('library', 'library "methods"'), ('using', 'using SbNs'),
+]
+# how the writer W becomes a statement or an rterm R
+W_FORMS = [
+    ('stmt', '%s', False), ('dict', '{ %s }', True), ('dict_after', '{ sba = 1; %s }', True), ('dict_before', '{ %s; sbz = 2 }', True),
+    ('dict_nested', '{ sba = { %s } }', True), ('dict_nested_arr', '{ sba = [ { %s } ] }', True), ('dict3', '{ sba = { sbb = { %s } } }', True),
+    ('if_true', 'if (true) { %s }', True), ('if_else', 'if (false) { 0 } else { %s }', True),
+    ('else_if', 'if (false) { 0 } else if (true) { %s }', True),
+    ('try_body', 'try { %s } except { 0 }', False), ('try_except', 'try { throw "x" } except { %s }', False),
+    ('lambda_call', '(() => { %s })()', True), ('closure', '{{ %s }}', True), ('function_body', 'function() { %s }', True),
+    ('lambda_map', '[ 1 ].map(x => { %s })', True), ('while_body', 'while (true) { %s; break }', False),
+    ('for_body', 'for (q in [ 1 ]) { %s }', False), ('namespace_body', 'namespace SbWNb@ { %s }', False),
+]
+# where the rterm R stands
+W_CTXS = [
+    ('array_elem', '[ 1, %s ]'), ('arg_len', 'len(%s)'), ('arg_json', 'Json.encode(%s)'), ('arg_typeof', 'typeof(%s)'), ('arg_keys', 'keys(%s)'),
+    ('arg_match2', 'match("*", %s)'), ('arg_union2', 'union([ 1 ], %s)'),
+    ('cond_if', 'if (%s) { 1 }'), ('cond_ternary', '%s ? 1 : 2'), ('ternary_then', 'true ? %s : 1'), ('ternary_else', 'false ? 1 : %s'),
+    ('and_rhs', 'true && %s'), ('or_rhs', 'false || %s'), ('and_lhs', '%s && true'), ('or_lhs', '%s || true'),
+    ('not', '!%s'), ('eq', '%s == 1'), ('plus', '1 + %s'), ('in_lhs', '%s in [ 1 ]'), ('in_rhs', '1 in %s'),
+    ('receiver_len', '%s.len()'), ('receiver_keys', '%s.keys()'), ('receiver_contains', '%s.contains("a")'),
+    ('index', 'SbDict[%s]'), ('member_of', '%s.a'), ('throw', 'throw %s'), ('use', 'function() use(q = %s) { 1 }'),
+    ('using', 'using %s\nsbfoo'), ('deref', '*%s'), ('ctor', 'String(%s)'), ('call_arg_obj', 'get_object(Host, %s)'),
+    ('try', 'try { %s } except { 0 }'),
+]
+W_MODES = ['filter', 'console', 'event', 'inbox', 'filter', 'console', 'filterperm', 'event']
+
+
+def writer_position_probes(fns, rnd, tier):
+    """-> list of (mode, code, desc)"""
+    hof = sorted(f['path'].split('.', 1)[1] for f in fns if f['safe'] and f['path'].startswith('@Array.') and
+                 any(a in f['args'].split(',') for a in ('func', 'less_cmp', 'reduce', 'callback', 'cmp')))
+    ctxs = list(W_CTXS)
+    for m_ in hof:      # every higher-order safe native: R as the callback argument, and R as an element of the receiver
+        ctxs.append(('cb_' + m_, '[ 1, 2 ].%s(%%s)' % m_))
+        ctxs.append(('recv_' + m_, '[ %%s ].%s(bool)' % m_))
+    placements = [(f, 'none', ft) for f, ft, _ in W_FORMS]
+    placements += [('dict', c, ct.replace('%s', '{ %s }')) for c, ct in ctxs]
+    for f, ft, is_rterm in W_FORMS:
+        if is_rterm and f not in ('stmt', 'dict'):
+            for c in ('array_elem', 'arg_json', 'cond_if', 'and_rhs', 'cb_map', 'receiver_len'):
+                ct = dict(ctxs).get(c)
+                if ct:
+                    placements.append((f, c, ct.replace('%s', ft)))
+    writers = []
+    for shape, lt, rhs in W_LHS:
+        for opn, opt in SET_OPS:
+            if opn in W_LHS_OPS.get(shape, [o for o, _ in SET_OPS]):
+                writers.append(('set', opn, shape, '%s %s %s' % (lt, opt, rhs)))
+    for wn, wt in W_OTHER:
+        writers.append((wn, 'set', '-', wt))
+    out = []
+    k = 0
+    for w, opn, shape, wt in writers:
+        for form, ctx, pt in placements:
+            k += 1
+            # quick tier: every (left-hand side / writer, placement) with `=` and `+=`; the other operators on a seeded half
+            if tier in ('quick', 'search') and w == 'set' and opn not in ('set', 'add') and rnd.random() < 0.5:
+                continue
+            mode = W_MODES[(k + rnd.randrange(len(W_MODES))) % len(W_MODES)]
+            sh, text = shape, wt
+            if shape == 'live_attr' and not mode.startswith('filter'):
+                sh, text = 'call_vars', wt.replace('host.vars.num', 'get_object(Host, "sbh").vars.num')
+            code = pt.replace('%s', text)
+            out.append((mode, code, 'kind=wpos w=%s op=%s lhs=%s form=%s ctx=%s restore=1' % (w, opn, sh, form, ctx)))
+    return out
+
 _enum_cache = {}
 
 
@@ -427,6 +529,13 @@ def generate(seed, tier):
                 code = fresh(tmpl) % (M if marker else fresh(plain))
                 lines.append(probe(k, mode, marker, code, 'kind=form form=%s' % form))
         add(lines, 'statement-form', form=form)
+    # 1b. WRITERS x POSITIONS x LEFT-HAND SIDES
+    ps = writer_position_probes(fns, rnd, tier)
+    for j in range(0, len(ps), 40):
+        lines = []
+        for i, (mode, code, desc) in enumerate(ps[j:j + 40]):
+            lines.append(probe(i + 1, mode, 0, fresh(code), desc))
+        add(lines, 'writer-position')
     # 2. every live function / prototype method
     skipped = []
     for fn in fns:
